@@ -41,6 +41,10 @@ type execSpec struct {
 	Main     string            `json:"main"`
 	Files    map[string]string `json:"files,omitempty"`
 	VarInput string            `json:"var_input,omitempty"` // evaluated by ExecVarInputText before the execution
+	// Mode http: Main is the entry file of a ZnHttpHandler that serves this one request
+	ReqURL     string      `json:"request_url,omitempty"`
+	ReqHeaders [][2]string `json:"request_headers,omitempty"`
+	ReqBody    string      `json:"request_body,omitempty"`
 }
 
 func runSpec(w *zsim.World, in *exec.Interpreter, sp *execSpec) ExecResult {
@@ -63,6 +67,18 @@ func runSpec(w *zsim.World, in *exec.Interpreter, sp *execSpec) ExecResult {
 	if sp.Mode == "file" {
 		d.Put("/proj/main.zn", []byte(sp.Main))
 		return runFile(w, in, "/proj/main.zn", inputs)
+	}
+	if sp.Mode == "http" {
+		d.Put("/srv/entry.zn", []byte(sp.Main))
+		h := server.NewZnHttpHandler(in, "/srv/entry.zn")
+		req := httptest.NewRequest("POST", sp.ReqURL, strings.NewReader(sp.ReqBody))
+		for _, kv := range sp.ReqHeaders {
+			req.Header.Add(kv[0], kv[1])
+		}
+		rec := httptest.NewRecorder()
+		res := execute(w, func() (rElement, error) { h.ServeHTTP(rec, req); return strResult("served"), nil })
+		res.Result = fmt.Sprintf("%d %s", rec.Code, rec.Body.String())
+		return res
 	}
 	return runScript(w, in, sp.Main, inputs)
 }
@@ -218,6 +234,31 @@ func c16ResultPolluter(ei, mi int) *execSpec {
 		Main: fmt.Sprintf("%s，得到果\n（显示：“先”、果）\n以果（%s）\n（显示：“后”、果）\n输出“污染者结束”%s", e[0], m, guard)}
 }
 
+// c16HTTPSpec: one request to a ZnHttpHandler. shape selects the request (no query string and
+// no extra header / a query string / extra headers / a JSON body); the entry program either
+// fills defaults into the parts of 当前请求 in place (patch) or only displays them.
+func c16HTTPSpec(id string, shape int, patch bool) *execSpec {
+	sp := &execSpec{ID: fmt.Sprintf("%s/%d", id, shape), Mode: "http", ReqURL: "http://sim.local/页"}
+	switch shape {
+	case 1:
+		sp.ReqURL += "?a=1&b=2"
+	case 2:
+		sp.ReqHeaders = [][2]string{{"X-Trace", "t1"}, {"Accept", "text/plain"}}
+	case 3:
+		sp.ReqHeaders = [][2]string{{"Content-Type", "application/json"}}
+		sp.ReqBody = `{"k":1,"表":[1,2]}`
+	}
+	if patch {
+		sp.Main = "输入当前请求\n以当前请求 之 查询参数（写入：“页码”、“1”）\n以当前请求 之 头部（写入：“X-注入”、“是”）\n（显示：当前请求 之 查询参数）\n输出“污染者结束”\n\n拦截异常：\n\t输出“挡住”\n"
+		if shape == 3 {
+			sp.Main = "输入当前请求\n以当前请求 之 内容（写入：“注入”、“是”）\n以当前请求 之 查询参数（写入：“页码”、“1”）\n输出“污染者结束”\n\n拦截异常：\n\t输出“挡住”\n"
+		}
+		return sp
+	}
+	sp.Main = "输入当前请求\n（显示：当前请求 之 查询参数）\n（显示：当前请求 之 头部）\n（显示：当前请求 之 内容）\n（显示：当前请求 之 路径）\n输出“读完请求”\n"
+	return sp
+}
+
 // c16ResultBatch is one program that does what c16ResultPolluter does for EVERY entry of the
 // table, each in a function of its own with its own handler.
 func c16ResultBatch(mi int) *execSpec {
@@ -272,6 +313,12 @@ func c16Related(t *zsim.Tape, p *execSpec) *execSpec {
 		return v([]uint32{4, 9, 10}[t.Draw(3)])
 	case id == "dies-mid-call":
 		return v([]uint32{6, 2, 3}[t.Draw(3)])
+	case strings.HasPrefix(id, "http-request-patched/"):
+		shape := uint32(id[len(id)-1] - '0')
+		if t.Draw(2) == 1 {
+			shape = 0
+		}
+		return v(13, shape)
 	case strings.HasPrefix(id, "method-result"):
 		// nothing in the battery looks at method results: the program itself, run again, does
 		again := *p
@@ -285,7 +332,9 @@ func c16Related(t *zsim.Tape, p *execSpec) *execSpec {
 func c16Polluter(t *zsim.Tape) *execSpec {
 	gs := c16Globals()
 	guard := "\n\n拦截异常：\n\t输出“挡住”\n"
-	switch t.Draw(18) {
+	switch t.Draw(19) {
+	case 18: // an entry program that changes the parts of ITS OWN request object in place
+		return c16HTTPSpec("http-request-patched", t.Draw(4), true)
 	case 17: // the result of a built-in method, bound without a copy and changed in place
 		return c16ResultPolluter(t.Draw(len(c16Results)), t.Draw(4))
 	case 16: // … the same for every method of the table in one program
@@ -347,7 +396,9 @@ func c16Polluter(t *zsim.Tape) *execSpec {
 // victim draws a program from the fixed battery that reads predefined state.
 func c16Victim(t *zsim.Tape) *execSpec {
 	gs := c16Globals()
-	switch t.Draw(13) {
+	switch t.Draw(14) {
+	case 13: // an entry program that only looks at its request
+		return c16HTTPSpec("http-request-read", t.Draw(4), false)
 	case 12: // the byte-identical document parsed again and only read
 		doc, size := c16Doc(t.Draw(3))
 		return &execSpec{ID: "json-doc-read:" + size, Mode: "script", Main: "导入《@JSON》\n\n令配置 = （解析JSON：“" + doc + "”）\n令标记 = 以配置（读取：“已处理”）\n令重试 = 配置 # “retries”\n（显示：标记、重试、配置之长度）\n输出“读完文档”\n"}
@@ -439,6 +490,9 @@ func c16EnumPolluters() []*execSpec {
 	for mi := 0; mi < 4; mi++ {
 		out = append(out, c16ResultBatch(mi))
 	}
+	for shape := 0; shape < 4; shape++ {
+		out = append(out, c16HTTPSpec("http-request-patched", shape, true))
+	}
 	for class := 0; class < 3; class++ {
 		doc, size := c16Doc(class)
 		out = append(out, &execSpec{ID: "json-doc-patched:" + size, Mode: "script", Main: "导入《@JSON》\n\n（解析JSON：“" + doc + "”），得到配置\n以配置（写入：“已处理”、“是”）\n配置 # “retries” = 42\n输出“污染者结束”" + guard})
@@ -449,7 +503,7 @@ func c16EnumPolluters() []*execSpec {
 	return out
 }
 
-const c16Victims = 13
+const c16Victims = 14
 
 func c16PartA(t *zsim.Tape, cfg *hlib.Config) *hlib.Outcome {
 	sc := &c16Scenario{Part: "A:history"}
